@@ -41,7 +41,9 @@ type ConnSpec struct {
 	Close     string `json:"close"`               // graceful | open (still open when the agent is stopped)
 	Garbage   bool   `json:"garbage,omitempty"`   // a non-record line first
 	StartMs   int    `json:"startMs,omitempty"`   // ms to wait before opening the connection
-	Bulk      int    `json:"bulk,omitempty"`      // after Recs: this many more records of 3000 bytes for key set (app 0, host 0)
+	Bulk      int    `json:"bulk,omitempty"`      // after Recs: this many more records of BulkSize (default 3000) bytes for key set (app 0, host 0)
+	BulkSize  int    `json:"bulkSize,omitempty"`
+	BulkPause int    `json:"bulkPause,omitempty"` // ms between bulk records (0 = none)
 }
 
 // ReloadSpec is one configuration reload (what SIGHUP triggers) placed during the traffic of a generation.
@@ -156,6 +158,11 @@ func setDefs(sc Scenario) {
 	defs.ForwarderHandshakeTimeout = 300 * time.Millisecond
 	defs.ForwarderBatchSendTimeoutBase = 300 * time.Millisecond
 	defs.ForwarderBatchSendMinimumSpeed = 4 << 20 // the send deadline grows by whole seconds of chunk length / this speed: +1 s for a 6 MB chunk
+	if strings.HasPrefix(sc.Family, "blocked-write") {
+		// as with the production values (90 s + 100 s per MB against 300 s): the send deadline of a multi-megabyte chunk is
+		// far beyond the time Destroy waits for the feeder (here about 9 s), so a blocked write has to be aborted at the stop
+		defs.ForwarderBatchSendMinimumSpeed = 300 << 10
+	}
 	defs.ForwarderBatchAckTimeout = 200 * time.Millisecond
 	defs.ForwarderAckerStopTimeout = 400 * time.Millisecond
 	defs.ForwarderRetryInterval = 10 * time.Millisecond
@@ -591,7 +598,10 @@ func runScenario(sc Scenario) *Outcome {
 				if cs.Bulk > 0 {
 					allRecs = append(append([]Rec(nil), cs.Recs...), make([]Rec, cs.Bulk)...)
 					for i := len(cs.Recs); i < len(allRecs); i++ {
-						allRecs[i] = Rec{Size: 3000}
+						allRecs[i] = Rec{Size: 3000, Pause: cs.BulkPause}
+						if cs.BulkSize > 0 {
+							allRecs[i].Size = cs.BulkSize
+						}
 					}
 				}
 				for _, r := range allRecs {
